@@ -96,6 +96,9 @@ def closures(ctx, db, rid_='C11.closure-owns-waiter', rid2_='C11.run-once'):
                     m2 = re.search(r'unique_ptr<[^,]+,\s*(?:struct |class )?([\w:]+(?:<[^<>]*>)?(?:::\w+)*)\s*>', c.get('canon_type') or c.get('type') or '')
                     if m2 and 'lambda' not in m2.group(1):
                         dfs = db.fns(norm(m2.group(1)) + '::operator()')
+                        if not dfs and '::' not in m2.group(1):
+                            # a class local to the enqueuing function: its members are named <function>(<params>)::<class>::operator()
+                            dfs = [g for g in db.all_instances() if g['nname'].startswith(f['nname'] + '(') and g['nname'].endswith(')::' + m2.group(1) + '::operator()')]
                         dl = dfs[0] if dfs else None
                 if dl is not None:
                     fns, ext, _ = reach(db, [dl])
@@ -128,8 +131,8 @@ def closures(ctx, db, rid_='C11.closure-owns-waiter', rid2_='C11.run-once'):
             ctx.ob(rid2, lf, lf['key'], bad is None, 'guard released once, waiter resumed once' + ('' if not bad else ' -- ' + bad[0]), desc=bad[0] if bad else None)
 
 
-def enqueue(ctx, db):
-    rid = ctx.rule('C11.enqueue', 'GUARDED+COUNT', 'thread_pool::enqueue: the task is pushed only on the edge where the exit flag is false, and every path that pushed notifies a worker '
+def enqueue(ctx, db, rid_='C11.enqueue'):
+    rid = ctx.rule(rid_, 'GUARDED+COUNT', 'thread_pool::enqueue: the task is pushed only on the edge where the exit flag is false, and every path that pushed notifies a worker '
                    'unconditionally (a conditional notify loses a wake-up when two submissions arrive back to back); the rejected task is left to the caller (not destroyed under the lock)', floor=1)
     for f, trs in traces_of(db, 'cocls::thread_pool::enqueue', depth=0, per_instance=False):
         trs = [t for t in trs if live(t)]
@@ -239,11 +242,23 @@ def stop(ctx, db, rid='C11.stop'):
                 if it.k == 'call' and norm(it.get('callee')) == 'std::thread::join' and ls[i]:
                     bad = bad or ('join() while holding the pool mutex: the worker needs it to leave its loop', tr)
             # the swapped-out queue
-            sw = [i for i, it in enumerate(tr) if it.k == 'call' and norm(it.get('callee')) == 'std::swap' and any(norm(a.get('field') or '') == Qf for a in it.get('args', []))]
+            def swap_operands(it):
+                # std::swap(q, _queue) / q.swap(_queue) / _queue.swap(q)
+                if it.k != 'call':
+                    return None
+                c_ = norm(it.get('callee') or '')
+                if c_ == 'std::swap':
+                    ops = [(a.get('path'), norm(a.get('field') or '')) for a in it.get('args', [])]
+                elif c_.endswith('::swap') and it.get('recv') and len(it.get('args') or []) == 1:
+                    ops = [(it.get('recv'), norm(it.get('field') or '')), (it['args'][0].get('path'), norm(it['args'][0].get('field') or ''))]
+                else:
+                    return None
+                return ops if any(fl == Qf for _, fl in ops) else None
+            sw = [i for i, it in enumerate(tr) if swap_operands(it)]
             if len(sw) != 1:
                 bad = bad or ('the pending tasks are not swapped out of the queue exactly once', tr)
             else:
-                loc = next((a.get('path') for a in tr[sw[0]]['args'] if re.fullmatch(r'local:\w+', a.get('path') or '')), None)
+                loc = next((p_ for p_, _ in swap_operands(tr[sw[0]]) if re.fullmatch(r'local:\w+', p_ or '')), None)
                 if not ls[sw[0]]:
                     bad = bad or ('the queue is swapped out without the lock', tr)
                 d = [i for i, it in enumerate(tr) if it.k == 'dtor' and loc and it.get('var') == loc.split(':')[1] and it.get('depth', 0) == 0]
